@@ -137,12 +137,15 @@ def check_fit_independent_of_history(tier, seed):
 
     models = [
         ("DenovoMCMC", lambda: DenovoMCMC(ploidy=4, n_alleles=[2, 2, 2, 2], steps=120, chains=2, random_seed=11, temperatures=(0.4, 1.0), inbreeding=0.1).fit(reads, counts).genotypes),
+        ("DenovoMCMC-seed0", lambda: DenovoMCMC(ploidy=4, n_alleles=[2, 2, 2, 2], steps=120, chains=2, random_seed=0, fix_homozygous=1.0).fit(reads, counts).genotypes),
+        ("CallingMCMC-seed0", lambda: CallingMCMC(ploidy=4, haplotypes=H, steps=120, chains=2, random_seed=0, inbreeding=0.1).fit(reads, counts).genotypes),
         ("CallingMCMC", lambda: CallingMCMC(ploidy=4, haplotypes=H, steps=120, chains=2, random_seed=11, inbreeding=0.1).fit(reads, counts).genotypes),
         ("CallingMCMC-MH", lambda: CallingMCMC(ploidy=4, haplotypes=H, steps=120, chains=2, random_seed=11, step_type="Metropolis-Hastings").fit(reads, counts).genotypes),
     ]
     parents = np.array([[-1, -1], [-1, -1], [0, 1]])
     sreads = np.array([reads, reads[::-1].copy(), reads.copy()])
     scounts = np.array([counts, counts[::-1].copy(), counts.copy()])
+    models.append(("PedigreeCallingMCMC-seed0", lambda: PedigreeCallingMCMC(sample_ploidy=np.array([4, 4, 4]), sample_inbreeding=np.zeros(3), sample_parents=parents, gamete_tau=np.full((3, 2), 2), gamete_lambda=np.zeros((3, 2)), gamete_error=np.full((3, 2), 0.1), haplotypes=H, steps=80, annealing=20, chains=2, random_seed=0).fit(sreads, scounts).genotypes))
     models.append(("PedigreeCallingMCMC", lambda: PedigreeCallingMCMC(sample_ploidy=np.array([4, 4, 4]), sample_inbreeding=np.zeros(3), sample_parents=parents, gamete_tau=np.full((3, 2), 2), gamete_lambda=np.zeros((3, 2)), gamete_error=np.full((3, 2), 0.1), haplotypes=H, steps=80, annealing=20, chains=2, random_seed=11).fit(sreads, scounts).genotypes))
     for name, f in models:
         ref_trace = f()
